@@ -3,11 +3,27 @@ package trie
 import (
 	"bytes"
 	"math/bits"
+	"unsafe"
 
 	"github.com/openacid/low/bitmap"
 	"github.com/openacid/low/bitstr"
 	"github.com/openacid/low/bmtree"
 )
+
+// strCmpUpto compares a string with a bitstr prefix without copying the string.
+//
+// bitstr.StrCmpUpto casts the 2-word string header to a 3-word slice header and
+// thus reads a garbage capacity: with some stack layouts(e.g. built with -race)
+// slicing inside CmpUpto panics with "slice bounds out of range".
+// Build a complete slice header instead.
+func strCmpUpto(a string, b []byte) int {
+	h := struct {
+		data unsafe.Pointer
+		len  int
+		cap  int
+	}{*(*unsafe.Pointer)(unsafe.Pointer(&a)), len(a), len(a)}
+	return bitstr.CmpUpto(*(*[]byte)(unsafe.Pointer(&h)), b)
+}
 
 type querySession struct {
 	keyBitLen int32
@@ -150,7 +166,7 @@ func (st *SlimTrie) GetID(key string) int32 {
 		}
 
 		if qr.hasInnerPrefix {
-			r := bitstr.StrCmpUpto(key[i>>3:], qr.innerPrefix)
+			r := strCmpUpto(key[i>>3:], qr.innerPrefix)
 			if r != 0 {
 				return -1
 			}
@@ -252,7 +268,7 @@ func (st *SlimTrie) searchID(key string) (lID, eqID, rID int32) {
 		}
 
 		if qr.hasInnerPrefix {
-			r := bitstr.StrCmpUpto(key[i>>3:], qr.innerPrefix)
+			r := strCmpUpto(key[i>>3:], qr.innerPrefix)
 			if r == 0 {
 				i = i&(^7) + qr.innerPrefixLen
 			} else if r < 0 {
